@@ -717,6 +717,92 @@ func runC12(k *kernel.K) {
 	if len(accepted) > 1 {
 		k.Probe("config_replaced")
 	}
+	// Second phase, a third of the runs: two administrators post a valid configuration each at the
+	// same time (two connections; the tape parks them before the lock acquisitions of the
+	// configuration holder, seam R8). Whichever wins, it "replaces completely": an exchange sent
+	// after both were answered is shaped, in its request and in its response, by one of the two.
+	if !k.Failed() && w.Chance(1, 3) && traffic.Alive() {
+		k.Probe("two_configurations_posted_at_once")
+		var pair []*c12Conf
+		var admins []*Client
+		for i := 0; i < 2; i++ {
+			c := &c12Conf{idx: 100 + i, tree: genTree(k, w.Range(1, 3), &nextProbe)}
+			c.body = c.tree.JSON()
+			ad := NewClient(k, aw.l, fmt.Sprintf("admin%d", i+2), fmt.Sprintf("10.1.0.%d", 4+i))
+			c.item = ad.Add(apiReq(950+i, "POST", "/configure", c.body))
+			pair, admins = append(pair, c), append(admins, ad)
+			k.Note("concurrent config %d: %s", i, clipStr(c.body, 300))
+		}
+		k.RunUntil(func() bool { return admins[0].Done() && admins[1].Done() && len(k.Parked()) == 0 })
+		k.Drain()
+		k.ReleaseAll()
+		k.Settle()
+		ok := true
+		for i, ad := range admins {
+			if fin := ad.P.Final(); len(fin) != 1 || fin[0].Status != 200 {
+				ok = false
+				st := -1
+				if len(fin) > 0 {
+					st = fin[0].Status
+				}
+				k.Fail("C12.accept_replaces", map[string]string{"posted": "concurrently"}, "valid configuration posted at the same time as another one was answered with status %d (responses %d): %s", st, len(fin), clipStr(pair[i].body, 300))
+			}
+		}
+		if ok {
+			m := &cmsg{method: "GET", host: "origin-a.test", reqCond: []string{"a", "b", ""}[w.Draw(3)], reqCk: []string{"1", "2", ""}[w.Draw(3)], resCond: []string{"a", "b", ""}[w.Draw(3)], resCk: []string{"1", "2", ""}[w.Draw(3)], query: "k=v", qk: "v"}
+			r := &ReqSpec{ID: 60, Method: "GET", Abs: true, Host: "origin-a.test", Path: "/x60/c", HasQ: true, Query: "k=v"}
+			if m.reqCond != "" {
+				r.Header = append(r.Header, wire.HF{Name: "X-Cond", Value: m.reqCond})
+			}
+			if m.reqCk != "" {
+				r.Header = append(r.Header, wire.HF{Name: "Cookie", Value: "ck=" + m.reqCk})
+			}
+			rs := &RespSpec{Status: 200, Framing: "cl", Body: bodyBytes(60, 'r', 30)}
+			if m.resCond != "" {
+				rs.Header = append(rs.Header, wire.HF{Name: "X-Cond", Value: m.resCond})
+			}
+			if m.resCk != "" {
+				rs.Header = append(rs.Header, wire.HF{Name: "Set-Cookie", Value: "ck=" + m.resCk})
+			}
+			exs[60] = &c12Ex{id: 60, msg: m, spec: r, resp: rs}
+			before := len(traffic.P.Final())
+			traffic.Add(r)
+			k.RunUntil(func() bool { return traffic.Done() && len(k.Parked()) == 0 })
+			k.Drain()
+			k.ReleaseAll()
+			k.Settle()
+			var oreq *wire.Msg
+			for _, om := range origin.Requests() {
+				if exchangeID(om.Target) == 60 {
+					oreq = om
+				}
+			}
+			tf := traffic.P.Final()
+			if oreq != nil && len(tf) == before+1 {
+				gotReq := fmt.Sprintf("%v errors %v", traceOf(oreq), warningErrors(oreq))
+				gotRes := fmt.Sprintf("%v errors %v", traceOf(tf[before]), warningErrors(tf[before]))
+				match := false
+				var wants []string
+				for _, c := range pair {
+					qt, qe := c.tree.eval("request", m)
+					st, se := c.tree.eval("response", m)
+					wq, ws := fmt.Sprintf("%v errors %v", qt, qe), fmt.Sprintf("%v errors %v", st, se)
+					wants = append(wants, "request "+wq+" / response "+ws)
+					if wq == gotReq && ws == gotRes {
+						match = true
+					}
+				}
+				if !match {
+					k.Fail("C12.accept_replaces", map[string]string{"posted": "concurrently", "halves": "no_single_configuration"}, "two valid configurations were posted at the same time and both answered with 200; an exchange sent afterwards shows request trace %s and response trace %s, which no single one of the two explains: %v", gotReq, gotRes, wants)
+				}
+			} else {
+				k.Fail("C12.trace_request", map[string]string{"config": "after_concurrent_posts"}, "the exchange sent after two concurrent reconfigurations did not complete (origin saw it: %v, responses %d of %d)", oreq != nil, len(tf), before+1)
+			}
+		}
+		for _, ad := range admins {
+			ad.CloseNow()
+		}
+	}
 	aw.cleanup()
 }
 
